@@ -64,6 +64,7 @@ def run(sc):
                         want_stored = [] if last == 'noresult' else [('the-id', last == 'fail', None if last == 'fail' else ('done', 41, want_n))]
                         if not nror: want_stored = [('the-id', True, None)] * (want_n - 1) + want_stored
                         if len(runs) == want_n and stored != want_stored: pr.append(f"C11: stored results {stored}, expected {want_stored} (no_result_on_retry={nror})")
+                        if nror and len(runs) == want_n and len(stored) > len(want_stored): pr.append(f"C07: {len(stored)} results were stored although only the final attempt has an outcome to store (re-sent attempts signal no-result): {stored}")
                         if pr and len(fails) < 40: fails.append({'key': f"m={m}/{m_as_label}/{roe}/{nror}/{outcomes[:3]}", 'failed_clauses': pr})
     return {'reproduced': bool(fails), 'runs': n, 'n_failures': len(fails), 'failures': fails[:400]}
 
